@@ -41,8 +41,10 @@ package geo
 //@   mode bv
 //@   ensures iff(result4 == nil, !isNaN(lon) && -180 <= lon && lon <= 180 && !isNaN(lat) && -90 <= lat && lat <= 90)
 //@   ensures implies(result4 == nil && poleFree(lat, dist), sameF(result1, deg(rad(lat) + capRadius(dist))) && sameF(result3, deg(rad(lat) - capRadius(dist))))
-//@   ensures implies(result4 == nil && poleFree(lat, dist), sameF(result0, deg(ite(rad(lon) - capHalfWidth(lat, dist) < rad(-180.0), rad(lon) - capHalfWidth(lat, dist) + 2*math.Pi, rad(lon) - capHalfWidth(lat, dist)))))
-//@   ensures implies(result4 == nil && poleFree(lat, dist), sameF(result2, deg(ite(rad(lon) + capHalfWidth(lat, dist) > rad(180.0), rad(lon) + capHalfWidth(lat, dist) - 2*math.Pi, rad(lon) + capHalfWidth(lat, dist)))))
+//@   ensures implies(result4 == nil && poleFree(lat, dist) && rad(lon) - capHalfWidth(lat, dist) < rad(-180.0), sameF(result0, deg(rad(lon) - capHalfWidth(lat, dist) + 2*math.Pi)))
+//@   ensures implies(result4 == nil && poleFree(lat, dist) && !(rad(lon) - capHalfWidth(lat, dist) < rad(-180.0)), sameF(result0, deg(rad(lon) - capHalfWidth(lat, dist))))
+//@   ensures implies(result4 == nil && poleFree(lat, dist) && rad(lon) + capHalfWidth(lat, dist) > rad(180.0), sameF(result2, deg(rad(lon) + capHalfWidth(lat, dist) - 2*math.Pi)))
+//@   ensures implies(result4 == nil && poleFree(lat, dist) && !(rad(lon) + capHalfWidth(lat, dist) > rad(180.0)), sameF(result2, deg(rad(lon) + capHalfWidth(lat, dist))))
 //@   ensures implies(result4 == nil && !poleFree(lat, dist), sameF(result0, deg(rad(-180.0))) && sameF(result2, deg(rad(180.0))))
 
 // Proof obligations are written as calls of verifAssert(cond): its precondition is cond.
